@@ -12,7 +12,10 @@ use serde_json::{json, Value};
 
 use crate::rng::{fnv, mix, Rng};
 
-pub const VERIF_ROOT: &str = "/verif";
+/// root of the verification tree: the working directory of the check (the `check` script cds there)
+pub fn verif_root() -> PathBuf {
+    std::env::var("VERIF_ROOT").map(PathBuf::from).unwrap_or_else(|_| std::env::current_dir().expect("cwd"))
+}
 
 #[derive(Clone, Copy, Debug, PartialEq, Eq, Serialize, Deserialize)]
 pub enum Tier {
@@ -431,7 +434,7 @@ pub fn child<C: Check>(check: &'static C, args: &ChildArgs) -> i32 {
     let mut out = ChildOut::default();
     let mut cov = Cov::default();
     cov.known = args.known_sigs.iter().cloned().collect();
-    let replay_dir = Path::new(VERIF_ROOT).join("replays");
+    let replay_dir = verif_root().join("replays");
     let mut seen_sigs: BTreeSet<String> = BTreeSet::new();
     for index in args.start..args.start + args.count {
         if t0.elapsed().as_secs() >= args.deadline_s {
@@ -525,7 +528,7 @@ pub struct KnownFindingsFile {
 }
 
 pub fn load_known() -> KnownFindingsFile {
-    let p = Path::new(VERIF_ROOT).join("known_findings.json");
+    let p = verif_root().join("known_findings.json");
     match std::fs::read(&p) {
         Ok(d) => serde_json::from_slice(&d)
             .unwrap_or_else(|e| harness_error(&format!("known_findings.json: {e}"))),
@@ -623,7 +626,7 @@ pub fn parent<C: Check>(check: &'static C, tier: Tier) -> i32 {
     let mut known_report = vec![];
     for k in &my_known {
         let Some(rp) = &k.replay else { continue };
-        let path = Path::new(VERIF_ROOT).join(rp);
+        let path = verif_root().join(rp);
         if !path.exists() {
             harness_error(&format!("known finding replay missing: {}", path.display()));
         }
@@ -649,7 +652,7 @@ pub fn parent<C: Check>(check: &'static C, tier: Tier) -> i32 {
     }
 
     // 2. the seeded search
-    let work = Path::new(VERIF_ROOT).join("work");
+    let work = verif_root().join("work");
     std::fs::create_dir_all(&work).ok();
     let per = total.div_ceil(workers);
     let cap = check.wall_cap_s(tier);
@@ -845,7 +848,7 @@ pub fn parent<C: Check>(check: &'static C, tier: Tier) -> i32 {
         "wall_s": wall,
         "violations": confirmed.len(),
     });
-    let evdir = Path::new(VERIF_ROOT).join("evidence");
+    let evdir = verif_root().join("evidence");
     std::fs::create_dir_all(&evdir).ok();
     std::fs::write(
         evdir.join(format!("{id}.json")),
@@ -882,7 +885,7 @@ fn crash_violation<C: Check>(check: &'static C, tier: Tier, master: u64, index: 
         format!("child process {what} while executing run index {index}"),
     );
     let path = write_replay(
-        &Path::new(VERIF_ROOT).join("replays"),
+        &verif_root().join("replays"),
         check.id(),
         seed,
         &v,
